@@ -68,6 +68,20 @@ func (e *Engine) intrinsic(st *State, fn *ssa.Function, args []Value, ci ssa.Val
 		case "vImplies":
 			e.finish(st, ci, Or(Not(args[0].(*Term)), args[1].(*Term)), fd)
 			return true
+		case "vLenOf":
+			sl := args[0].(*Iface).V.(*Slice)
+			e.finish(st, ci, Const(64, uint64(sl.Len)), fd)
+			return true
+		case "vSwapElems":
+			sl := args[0].(*Iface).V.(*Slice)
+			i, _ := concreteInt(args[1])
+			j, _ := concreteInt(args[2])
+			el := e.sliceElems(st, sl)
+			vi, vj := el[i], el[j]
+			e.setSliceElem(st, sl, i, vj)
+			e.setSliceElem(st, sl, j, vi)
+			e.finish(st, ci, nil, fd)
+			return true
 		case "vTier":
 			e.finish(st, ci, Const(64, uint64(e.tier)), fd)
 			return true
@@ -209,6 +223,13 @@ func (e *Engine) intrinsic(st *State, fn *ssa.Function, args []Value, ci ssa.Val
 	if short == "init" && fn.Synthetic == "package initializer" {
 		e.finish(st, ci, nil, fd)
 		return true
+	}
+	if name == "sort.Slice" && e.harnessPkg != nil {
+		if f := e.harnessPkg.Func("vSortSlice"); f != nil {
+			e.pushCall(st, f, args, nil, ci)
+			e.top(st).fromDefer = fd
+			return true
+		}
 	}
 	switch name {
 	case "(*sync.Mutex).Lock", "(*sync.Mutex).Unlock", "(*sync.RWMutex).Lock", "(*sync.RWMutex).Unlock",
@@ -492,16 +513,30 @@ func (e *Engine) flushAsserts(st *State) bool {
 		return true
 	}
 	// sat: find the first assertion that is false in the model
-	cs := make([]*Term, len(pend))
-	for i, p := range pend {
-		cs[i] = p.c
-	}
-	vals := e.solver.Values(cs)
-	id := pend[len(pend)-1].id
-	for i, p := range pend {
-		if p.c.IsFalse() || (!p.c.IsConst() && vals[i] == 0) {
+	// (evaluated under the model of the variables: an assertion term such as
+	// (not X) is not itself a sub-term of the query and has no solver name)
+	m := e.fetchModel(st)
+	id := ""
+	for _, p := range pend {
+		if p.c.IsFalse() {
 			id = p.id
 			break
+		}
+		if v, ok := evalTerm(p.c, m, map[*Term]uint64{}); ok && v == 0 {
+			id = p.id
+			break
+		}
+	}
+	if id == "" {
+		// not evaluable (uninterpreted functions): ask the solver one by one
+		for _, p := range pend {
+			if e.solver.Check(st.pc, Not(p.c)) == "sat" {
+				id = p.id
+				break
+			}
+		}
+		if id == "" {
+			id = pend[len(pend)-1].id
 		}
 	}
 	e.recordViolation(st, "assert", id)
